@@ -223,6 +223,8 @@ func runC07(c *core.Ctx) error {
 
 	// ---- R07.5
 	checkDepthPairing(c, r5, prog)
+	r7 := c.NewRule("R07.7", "S1", "nodes of the root document are parsed in a root resolve context", 1)
+	checkRootComponentsInRootCtx(c, r7, prog)
 	r6 := c.NewRule("R07.6", "S1", "reference transparency of comparators, reference identity, per-iteration marks, recursion walk", 4)
 	irProg, err := c.Program("./gen/ir", "./gen", "./openapi/parser", "./jsonschema")
 	if err != nil {
